@@ -1,5 +1,6 @@
 import TflModel.Lemmas.LatticeExec
 import TflModel.Lemmas.TrapezoidFold
+import TflModel.Lemmas.TrapezoidBump
 /-!
 # C01 — the Lattice weight constraint (strict mode) / `finalize_constraints` return kernels that
 meet every strict shape constraint
@@ -14,9 +15,13 @@ Proved at full strength for the configuration classes
   (A0) no trusts at all (monotonicity + bounds)             — instance of (A)
   (B) any monotonicities, any number of trapezoid trusts of either direction (shared conditional
       axes allowed), any bounds, no Edgeworth trusts        — `C01_strict_trapezoid_class`
-and transported to the executable table model (`C01_exec_edgeworth_class`, `C01_exec_trapezoid_class`).
-Configurations with BOTH Edgeworth and trapezoid trusts are covered by the correspondence + oracle
-of every run; inside them the class "Edgeworth present ∧ trapezoid with monotone conditional axis ∧ a third
+  (C1) Edgeworth AND trapezoid trusts where no trapezoid trust has a matching Edgeworth trust, no
+      trapezoid conditional axis is monotone and no two trapezoid trusts share a conditional axis
+                                                            — `C01_strict_mixed_nonmatching_class`
+and transported to the executable table model (`C01_exec_*`).
+The remaining configurations (a trapezoid trust WITH its matching Edgeworth trust — the running-max
+mode —, or with a monotone conditional axis while Edgeworth trusts are present) are covered by the
+correspondence + oracle of every run; inside them the class "Edgeworth present ∧ trapezoid with monotone conditional axis ∧ a third
 axis" genuinely violates the property (finding F-C01-a): `C01_counter_witness`.
 `C01_full` keeps the unrestricted statement visible.
 -/
@@ -237,6 +242,88 @@ theorem C01_exec_trapezoid_class (c : Cfg) (hwf : CfgWF c) (htw : TrapWF c) (hne
   rw [hag idx hr]; exact h4 idx hr
 
 
+/-- side conditions of class (C1), all decidable facts about the configuration -/
+structure MixedWF (c : Cfg) : Prop where
+  sizes : ∀ tr ∈ c.trapezoid, 2 ≤ c.sizes.getD tr.main 0
+  nonmatching : ∀ tr ∈ c.trapezoid, trapMode c.edgeworth tr = .maxBehind
+  roles : ∀ a ∈ c.trapezoid, ∀ b ∈ c.trapezoid, b.cond ≠ a.main
+  compat : ∀ tr ∈ c.trapezoid, ∀ e ∈ c.edgeworth, Compatible tr e
+  distinct : c.trapezoid.Pairwise (fun a b => a.cond ≠ b.cond)
+  cond_free : ∀ tr ∈ c.trapezoid, c.mono.getD tr.cond false = false
+
+/-- **C01 (class C1): Edgeworth and trapezoid trusts together, none matching, free conditional
+axes, no shared conditional axis.** Every strict constraint holds for EVERY input kernel. -/
+theorem C01_strict_mixed_nonmatching_class (c : Cfg) (hwf : CfgWF c) (hmx : MixedWF c) (w : W) :
+    Strict c (clipBounds c.lo c.hi (finalize c w)) := by
+  by_cases hnt : c.trapezoid = []
+  · exact C01_strict_edgeworth_class c hwf hnt w
+  have hclipIn : InBounds c.sizes c.lo c.hi (clipBounds c.lo c.hi (finalize c w)) :=
+    fun idx _ => clipBounds_in c.lo c.hi hwf.bounds _ idx
+  obtain ⟨t0, ht0⟩ : ∃ t, t ∈ c.trapezoid := by
+    cases h : c.trapezoid with
+    | nil => exact absurd h hnt
+    | cons a r => exact ⟨a, List.mem_cons_self ..⟩
+  obtain ⟨hwt0, hmain0⟩ := hwf.trust_wf t0 (List.mem_append_right _ ht0)
+  have hhas : hasMono c = true := by
+    have hmem : t0.main ∈ monoDims c.sizes c.mono := mem_monoDims.mpr ⟨hwt0.1, hmain0⟩
+    unfold hasMono
+    cases hl : monoDims c.sizes c.mono with
+    | nil => rw [hl] at hmem; cases hmem
+    | cons a r => rfl
+  have hnotboth : c.trapezoid.isEmpty = false := by
+    cases h : c.trapezoid with
+    | nil => exact absurd h hnt
+    | cons a r => simp
+  have hfin : finalize c w = approxBounds c.sizes c.lo c.hi
+      (approxTrapezoid c.sizes c.edgeworth c.trapezoid
+        (approxEdgeworth c.sizes c.edgeworth (approxMono c.sizes c.mono w))) := by
+    unfold finalize
+    simp only [hhas, hnotboth, Bool.and_false, Bool.not_true, Bool.false_eq_true, if_false]
+  have hE := approxEdgeworth_spec c.sizes c.edgeworth
+    (fun tr h => (hwf.trust_wf tr (List.mem_append_left _ h)).1) hwf.compat
+    (approxMono c.sizes c.mono w) [] (by simp) (by simp) (by simp)
+  have hT := approxTrapezoid_mb_spec (sizes := c.sizes) c.edgeworth
+    (fun e h => (hwf.trust_wf e (List.mem_append_left _ h)).1) c.trapezoid
+    (fun tr h => ⟨hmx.nonmatching tr h, (hwf.trust_wf tr (List.mem_append_right _ h)).1, hmx.sizes tr h,
+      hmx.compat tr h⟩)
+    hmx.roles hmx.distinct (approxEdgeworth c.sizes c.edgeworth (approxMono c.sizes c.mono w)) []
+    (by simp) (by simp) (fun e he => hE.1 e (Or.inr he))
+  have haff := approxBounds_affine c.sizes c.lo c.hi hwf.bounds
+    (approxTrapezoid c.sizes c.edgeworth c.trapezoid
+      (approxEdgeworth c.sizes c.edgeworth (approxMono c.sizes c.mono w)))
+  have hag : AgreeOn c.sizes (finalize c w) (clipBounds c.lo c.hi (finalize c w)) := by
+    intro idx hr
+    have hb := approxBounds_in c.sizes c.lo c.hi hwf.bounds
+      (approxTrapezoid c.sizes c.edgeworth c.trapezoid
+        (approxEdgeworth c.sizes c.edgeworth (approxMono c.sizes c.mono w))) hr
+    rw [← hfin] at hb
+    exact (clipBounds_fix c.lo c.hi _ idx hb.1 hb.2).symm
+  refine ⟨fun d hd hm => ?_, fun tr htr => ?_, fun tr htr => ?_, hclipIn⟩
+  · apply clipBounds_mono
+    rw [hfin]
+    refine haff.mono (hT.2.2 d hd (fun tr htr e => ?_) (hE.2 d (approxMono_mono c.sizes c.mono w hd hm)))
+    have := hmx.cond_free tr htr
+    rw [← e, hm] at this; cases this
+  · refine EdgeOK.congr hag ?_
+    rw [hfin]
+    exact haff.edgeOK (hT.2.1 tr htr)
+  · refine TrapOK.congr hag ?_
+    rw [hfin]
+    exact AffinePos_trapOK haff (hT.1 tr (Or.inr htr))
+
+/-- class (C1) on the EXECUTABLE model -/
+theorem C01_exec_mixed_nonmatching_class (c : Cfg) (hwf : CfgWF c) (hmx : MixedWF c) (t : Table) :
+    Strict c (runStage c.sizes (clipBounds c.lo c.hi) (finalizeT c t)).get := by
+  have hag : AgreeOn c.sizes (runStage c.sizes (clipBounds c.lo c.hi) (finalizeT c t)).get
+      (clipBounds c.lo c.hi (finalize c t.get)) :=
+    runStage_agree (clipBounds_local c.sizes c.lo c.hi)
+      (finalizeT_agree c (fun tr h => by have := hmx.sizes tr h; omega) (AgreeOn.refl _ _))
+  obtain ⟨h1, h2, h3, h4⟩ := C01_strict_mixed_nonmatching_class c hwf hmx t.get
+  refine ⟨fun d hd hm => (h1 d hd hm).congr hag.symm, fun tr htr => EdgeOK.congr hag.symm (h2 tr htr),
+    fun tr htr => TrapOK.congr hag.symm (h3 tr htr), fun idx hr => ?_⟩
+  rw [hag idx hr]; exact h4 idx hr
+
+
 /-! ### non-vacuity: a rank-3, two-trust configuration with both directions meets `CfgWF` -/
 def exampleCfg : Cfg :=
   { sizes := [3, 2, 3], mono := [true, false, true],
@@ -272,6 +359,24 @@ example : TrapWF exampleTrapCfg where
 example : Table.vals exampleTrapCfg.sizes (finalizeT exampleTrapCfg
     (Table.ofVals exampleTrapCfg.sizes [3,0, 1,0, 2,0, 0,1, 5,1, 0,0]))
     ≠ [3,0, 1,0, 2,0, 0,1, 5,1, 0,0] := by decide +kernel
+
+/-- a class-(C1) configuration: Edgeworth (0,1,+) and a non-matching trapezoid (0,2,−) with a free
+conditional axis -/
+def exampleMixedCfg : Cfg :=
+  { sizes := [2, 2, 3], mono := [true, true, false],
+    edgeworth := [⟨0, 1, true⟩], trapezoid := [⟨0, 2, false⟩], lo := some 0 }
+example : MixedWF exampleMixedCfg where
+  sizes := by intro tr h; simp only [exampleMixedCfg, List.mem_singleton] at h; subst h; decide
+  nonmatching := by intro tr h; simp only [exampleMixedCfg, List.mem_singleton] at h; subst h; decide
+  roles := by
+    intro a ha b hb
+    simp only [exampleMixedCfg, List.mem_singleton] at ha hb; subst ha; subst hb; decide
+  compat := by
+    intro tr h e he
+    simp only [exampleMixedCfg, List.mem_singleton] at h he; subst h; subst he
+    exact ⟨by decide, by decide, by decide⟩
+  distinct := by simp [exampleMixedCfg]
+  cond_free := by intro tr h; simp only [exampleMixedCfg, List.mem_singleton] at h; subst h; decide
 
 /-! ### finding F-C01-a: the unrestricted statement is false -/
 def witnessCfg : Cfg :=
